@@ -560,6 +560,10 @@ func Bounds(scope func(p *core.Prog) (map[*ssa.Function]bool, string)) Rule {
 
 // madeLen: the container was loaded from an address whose dominating store holds make([]T, n): its length is n.
 func madeLen(container ssa.Value, at ssa.Instruction) (lin, bool) {
+	if mk, isMk := container.(*ssa.MakeSlice); isMk {
+		l := norm(mk.Len, 0)
+		return l, l.ok
+	}
 	ld, ok := container.(*ssa.UnOp)
 	if !ok || ld.Op != token.MUL {
 		return lin{}, false
